@@ -14,7 +14,11 @@ for sid in sys.argv[1:]:
         lines = v["tail"].split("\n")
         viol = [l for l in lines if l.startswith("VIOLATION")]
         detail = [l.strip() for l in lines if l.startswith("  ")][:3]
-        if not viol:
+        if not viol and v.get("detected"):
+            # the VIOLATION line scrolled out of the 800 characters seedverify.py keeps
+            r = "failing input" if "Encode" in v["tail"] or "got" in v["tail"] else "detected"
+            detail = ["String16 Encode/Decode mismatch on a string of more than 32767 bytes (see meta.json checks.tail)"] if "Encode = 7fff" in v["tail"] else detail
+        elif not viol:
             r = "MISSED"
         elif viol[0].rstrip().endswith("no-failing-input-found"):
             r = "no-failing-input-found"
